@@ -82,6 +82,22 @@ class KeyPool:
                     break
         return self._get(name, None)
 
+    def ec_revoke_carry(self, alg=13):
+        """An EC KSK for which setting the REVOKE bit carries: low 16 bits of the accumulator of RDATA(257) >= 0xFF80,
+        so the revoked key's tag is tag + 129, not tag + 128 (about 1 key in 512; cached)"""
+        name = f"ec-revoke-carry-{alg}"
+        if name not in self.data:
+            curve = ec.SECP256R1() if alg == 13 else ec.SECP384R1()
+            while True:
+                k = ec.generate_private_key(curve)
+                rd = rdata(257, 3, alg, rfc6605(k.public_key()))
+                acc = sum(b if i & 1 else b << 8 for i, b in enumerate(rd))
+                if (acc & 0xFFFF) >= 0xFF80:
+                    self.data[name] = k.private_bytes(serialization.Encoding.PEM, serialization.PrivateFormat.PKCS8, serialization.NoEncryption()).decode()
+                    self.dirty = True
+                    break
+        return self._get(name, None)
+
     def save(self):
         if self.dirty:
             tmp = self.path.with_suffix(f".{os.getpid()}.tmp")
